@@ -71,6 +71,7 @@ FILTERS = [
     ({"tag": "y"}, {1, 2}),
     ({"func": _only_post_b}, {3}),
     ({"operation_id": ["getA", "getB"], "method_regex": "get"}, {0, 2}),
+    ({"operation_id_regex": "^post", "path": "/a"}, {1}),
 ]
 MT = [[o in den for o in range(len(OPS))] for _, den in FILTERS]
 
